@@ -686,7 +686,7 @@ def _activation_writes(m: MethodNF, sink_node, attrs):
     nodes, hit = path_nodes(scope)
     w = {}
     for n in nodes:
-        if n[0] == "setattr" and n[1] == m.selft and n[2] in attrs:
+        if n[0] == "setattr" and n[1] == N.ds_base(m.selft) and n[2] in attrs:
             w[n[2]] = n[3]
     return w
 
@@ -701,7 +701,7 @@ def rule_docstring_fsm(rep: Report, rid="C13.fsm", cls_q=MQ, openers=('"""', "``
     I = m.I
     rep.used_function(m.fi.qualname)
     line, trimmed, raw = line_terms(m)
-    active = ("attr", m.selft, N.DS_ACTIVE)
+    active = ("attr", N.ds_base(m.selft), N.DS_ACTIVE)
     opened = []
     closed = []
     for sn, ctx in m.sinks:
@@ -757,7 +757,7 @@ def rule_docstring_fsm(rep: Report, rid="C13.fsm", cls_q=MQ, openers=('"""', "``
            expected=["active delimiter"], found=[fmt(s, I) if s else None for s in closed])
     # state writes happen only on matching paths: every write is dominated by a successful startswith test
     for n, ctx in nf.iter_nodes(m.tree):
-        if n[0] == "setattr" and n[1] == m.selft and n[2] in (N.DS_ACTIVE, N.DS_INDENT):
+        if n[0] == "setattr" and n[1] == N.ds_base(m.selft) and n[2] in (N.DS_ACTIVE, N.DS_INDENT):
             gs = nf.guards_in_ctx(ctx)
             ok = any(c[0] == "call" and c[1] == ".startswith" and p for c, p in gs)
             rep.ob(rid, f"{n[2]} changes only when a delimiter line was matched", ok, **_kw(m, n[4]),
@@ -790,13 +790,64 @@ def rule_docstring_own(rep: Report, rid="C13.own") -> None:
                     work.append(node.func.attr)
     allowed -= {N.SINK, N.CHANGE_DIALECT}
     n = 0
+    holder = N.DS_HOLDER
+    hcls = f.cls(N.DS_HOLDER_CLASS) if holder is not None else None
+    mutators: set = set()
+    if hcls is not None:
+        # the state lives in an object of its own class: that class's methods may write it (it is their state), and whoever
+        # makes them do so - calls a writing method on the held object, rebinds the attribute, or lets the object escape - is
+        # the writer the rule is about
+        direct = {fi.name for fi in hcls.all_methods() for node in ast.walk(fi.node)
+                  if isinstance(node, ast.Attribute) and node.attr in (N.DS_ACTIVE, N.DS_INDENT) and isinstance(node.ctx, (ast.Store, ast.Del))}
+        mutators = set(direct)
+        grew = True
+        while grew:
+            grew = False
+            for fi in hcls.all_methods():
+                if fi.name in mutators or not fi.params():
+                    continue
+                for node in ast.walk(fi.node):
+                    if isinstance(node, ast.Call) and isinstance(node.func, ast.Attribute) and isinstance(node.func.value, ast.Name) \
+                            and node.func.value.id == fi.params()[0] and node.func.attr in mutators:
+                        mutators.add(fi.name)
+                        grew = True
+                        break
+        for m in f.modules.values():
+            for c in m.classes.values():
+                for fi in c.methods.values():
+                    parent = {ch: p_ for p_ in ast.walk(fi.node) for ch in ast.iter_child_nodes(p_)}
+                    for node in ast.walk(fi.node):
+                        if not (isinstance(node, ast.Attribute) and node.attr == holder):
+                            continue
+                        par = parent.get(node)
+                        inside = (base in c.mro() or c in base.mro()) and fi.name in allowed
+                        if isinstance(node.ctx, (ast.Store, ast.Del)):
+                            n += 1
+                            rep.ob(rid, f"the doc string state object ({holder}) is replaced only by the delimiter matcher and reset()", inside, file=fi.file,
+                                   line=node.lineno, function=fi.qualname, expected=sorted(allowed), found=fi.name)
+                        elif isinstance(par, ast.Attribute) and par.value is node:
+                            if par.attr in mutators and isinstance(parent.get(par), ast.Call) and parent[par].func is par:
+                                n += 1
+                                rep.ob(rid, f"{par.attr}() of the doc string state is called only by the delimiter matcher and reset()", inside, file=fi.file,
+                                       line=node.lineno, function=fi.qualname, expected=sorted(allowed), found=fi.name)
+                            elif isinstance(par.ctx, (ast.Store, ast.Del)):
+                                pass        # a direct write through the holder: counted below with the other writes of the fields
+                        elif isinstance(par, (ast.If, ast.While, ast.IfExp, ast.BoolOp, ast.Compare)) or (isinstance(par, ast.UnaryOp) and isinstance(par.op, ast.Not)):
+                            pass            # tested, not handed on
+                        else:
+                            rep.ob(rid, f"the doc string state object ({holder}) is not handed to anyone who could change it", inside, file=fi.file,
+                                   line=node.lineno, function=fi.qualname, expected="used in place", found=ast.unparse(par) if par is not None else None)
     for m in f.modules.values():
         if m.name == "gherkin.inout":
             continue
         for c in m.classes.values():
             for fi in c.methods.values():
+                if hcls is not None and (hcls in c.mro()):
+                    continue        # the state class's own methods
                 for node in ast.walk(fi.node):
                     if isinstance(node, ast.Attribute) and node.attr in (N.DS_ACTIVE, N.DS_INDENT) and isinstance(node.ctx, (ast.Store, ast.Del)):
+                        if hcls is not None and not (isinstance(node.value, ast.Attribute) and node.value.attr == holder):
+                            continue    # a same-named attribute of another class (the state object does not leave the matcher, see above)
                         n += 1
                         ok = (base in c.mro() or c in base.mro()) and fi.name in allowed
                         rep.ob(rid, f"{node.attr} is written only by the delimiter matcher and reset()", ok, file=fi.file, line=node.lineno,
@@ -804,6 +855,8 @@ def rule_docstring_own(rep: Report, rid="C13.own") -> None:
         for fi in m.functions.values():
             for node in ast.walk(fi.node):
                 if isinstance(node, ast.Attribute) and node.attr in (N.DS_ACTIVE, N.DS_INDENT) and isinstance(node.ctx, (ast.Store, ast.Del)):
+                    if hcls is not None and not (isinstance(node.value, ast.Attribute) and node.value.attr == holder):
+                        continue
                     rep.ob(rid, f"{node.attr} is written only by the delimiter matcher and reset()", False, file=fi.file, line=node.lineno,
                            function=fi.qualname, expected=sorted(allowed), found=fi.name)
     rep.floor("doc string state write sites", n, 2)
@@ -817,8 +870,8 @@ def rule_other_text(rep: Report, rid="C13.text", cls_q=MQ, openers=('"""', "```"
     I = m.I
     rep.used_function(m.fi.qualname)
     line, trimmed, raw = line_terms(m)
-    ind = ("attr", m.selft, N.DS_INDENT)
-    active = ("attr", m.selft, N.DS_ACTIVE)
+    ind = ("attr", N.ds_base(m.selft), N.DS_INDENT)
+    active = ("attr", N.ds_base(m.selft), N.DS_ACTIVE)
     C = ("bool", "or", (mk_cmp("Lt", ind, const(0)), mk_cmp("Gt", ind, ("attr", line, N.INDENT))))
     rep.eq(rid, "match_Other reports every line, unconditionally, exactly once", 1, len(m.sinks), **_kw(m))
     for sn, ctx in m.sinks:
@@ -833,7 +886,7 @@ def rule_other_text(rep: Report, rid="C13.text", cls_q=MQ, openers=('"""', "```"
         cases = {}
         stray = []
         for which in [None] + list(openers):
-            tw = nf.simplify(I, nf.subst(t, {active: const(which)})) if t else None
+            tw = nf.simplify(I, t, {active: const(which)}) if t else None
             cases[which] = tw
             for at in (cond_atoms(tw) if tw else []):
                 if at not in (lt, gt) and at not in stray:
@@ -865,7 +918,7 @@ def rule_other_text(rep: Report, rid="C13.text", cls_q=MQ, openers=('"""', "```"
     ds = M.methods["DocStringSeparator"]
     dline = ("attr", ds.tok, "line")
     for n, ctx in nf.iter_nodes(ds.tree):
-        if n[0] == "setattr" and n[1] == ds.selft and n[2] == N.DS_INDENT:
+        if n[0] == "setattr" and n[1] == N.ds_base(ds.selft) and n[2] == N.DS_INDENT:
             writes.append(("match_DocStringSeparator", n[3], n[-1] if isinstance(n[-1], int) else None))
     Ir = new_interp()
     rfi = M.cls.find_method("reset")
@@ -982,6 +1035,56 @@ def rule_reset(rep: Report, rid="C15.reset", classes=(MQ, "gherkin.token_matcher
             pm = cls.find_method(a)
             if pm is not None and pm.is_property:
                 del written[a]      # a property (e.g. current_node): the object mutated lives in another attribute
+        # state kept in an object of a repository class the matcher holds: a method of that object that writes the object's own
+        # attributes, called while matching, writes per-document state all the same
+        I0 = new_interp()
+
+        def own_writes(hc, meth, seen=()):
+            fi_ = hc.find_method(meth)
+            if fi_ is None or not fi_.params() or meth in seen:
+                return set()
+            me = fi_.params()[0]
+            out = set()
+            for n_ in ast.walk(fi_.node):
+                if isinstance(n_, ast.Attribute) and isinstance(n_.ctx, (ast.Store, ast.Del)) and isinstance(n_.value, ast.Name) and n_.value.id == me:
+                    out.add(n_.attr)
+                if isinstance(n_, ast.Call) and isinstance(n_.func, ast.Attribute) and isinstance(n_.func.value, ast.Name) and n_.func.value.id == me:
+                    out |= own_writes(hc, n_.func.attr, seen + (meth,))
+            return out
+        held: dict[str, set] = {}
+        held_cls: dict = {}
+
+        def owned(attr):
+            """the attribute is only ever bound to an object the class makes itself (``self.x = H(...)``): the object is part of
+            this component's state - unlike one handed in from outside (the id generator, shared on purpose)"""
+            seen_ = False
+            for c_ in cls.mro():
+                for fi_ in c_.methods.values():
+                    for n_ in ast.walk(fi_.node):
+                        tgt = val = None
+                        if isinstance(n_, ast.Assign) and len(n_.targets) == 1:
+                            tgt, val = n_.targets[0], n_.value
+                        elif isinstance(n_, ast.AnnAssign) and n_.value is not None:
+                            tgt, val = n_.target, n_.value
+                        if isinstance(tgt, ast.Attribute) and tgt.attr == attr and isinstance(tgt.value, ast.Name) and fi_.params() and tgt.value.id == fi_.params()[0]:
+                            if not (isinstance(val, ast.Call) and isinstance(val.func, ast.Name) and f.resolve_class(fi_.module, val.func.id) is not None):
+                                return False
+                            seen_ = True
+            return seen_
+        for c in cls.mro():
+            for fi in c.methods.values():
+                if fi.name in ("__init__", "reset") or cls.find_method(fi.name) is not fi:
+                    continue
+                for n in ast.walk(fi.node):
+                    if isinstance(n, ast.Call) and isinstance(n.func, ast.Attribute) and isinstance(n.func.value, ast.Attribute) \
+                            and isinstance(n.func.value.value, ast.Name) and n.func.value.value.id == "self":
+                        hc = I0.attr_class(cls, n.func.value.attr)
+                        if hc is not None and owned(n.func.value.attr):
+                            ws = own_writes(hc, n.func.attr)
+                            if ws:
+                                held.setdefault(n.func.value.attr, set()).update(ws)
+                                held_cls[n.func.value.attr] = hc
+                                written.setdefault(n.func.value.attr, set()).add(fi.qualname)
         # what reset() establishes
         I = new_interp()
         rfi = cls.find_method("reset")
@@ -1012,6 +1115,13 @@ def rule_reset(rep: Report, rid="C15.reset", classes=(MQ, "gherkin.token_matcher
                 continue
             est = established.get(a, [])
             ok = any(not gs and (is_const(v) or (v[0] == "ref" and isinstance(I.obj(v), (HList, HDict)) and v[0] == "ref")) for v, gs in est)
+            if a in held:
+                # a new object whose written fields are all constants, or every written field of the held one set to a constant
+                fresh = any(not gs and v[0] == "ref" and isinstance(I.obj(v), HInst) and all(is_const(st.ext.get((v, x), ("undef",))) for x in held[a])
+                            for v, gs in est)
+                base_t = ("attr", selft, a)
+                cleared = {n[2] for n, ctx in nf.iter_nodes(tree) if n[0] == "setattr" and n[1] == base_t and is_const(n[3]) and not nf.guards_in_ctx(ctx)}
+                ok = fresh or held[a] <= cleared
             rep.ob(rid, f"{cls.short}: attribute {a} (written by {', '.join(sorted(x.rsplit('.', 1)[1] for x in written[a]))}) is reset unconditionally to a constant / fresh value",
                    ok, file=rfi.file, line=rfi.node.lineno, function=rfi.qualname, expected=f"self.{a} = <constant or fresh object> in reset()",
                    found=[(fmt(v, I), [(fmt(c, I), p) for c, p in gs]) for v, gs in est] or "not assigned by reset()")
